@@ -353,8 +353,6 @@ def soup_case(ctx, rng, W):
                 mech, in_harness = exc_mech("search", e)
                 if in_harness:
                     raise
-                if name in KEEPS_UNKNOWN_FIELDS and _is_unknown_field_error(e, q, W):
-                    mech = "known:query-on-field-absent-from-index"
                 ctx.fail("totality.search", mech, dict(wit, how=how), traceback.format_exc()[-2500:])
                 break
     nontrivial = any(c not in ("wo", "sp", "_", "") for c in classes)
@@ -364,29 +362,6 @@ def soup_case(ctx, rng, W):
 # schema=None is documented as "usually for testing purposes": the text of the query is not analysed or validated
 # against any field, so its queries are parsed (totality of parse) but not run.
 NO_SEARCH = ("noschema",)
-# FieldsPlugin(remove_unknown=False) keeps prefixes of fields the schema does not have in the query.
-KEEPS_UNKNOWN_FIELDS = ("keep-unknown-fields",)
-
-
-def _is_unknown_field_error(e, q, W):
-    """Second oracle for the listed finding: the exception is KeyError/TermNotFound about a field name, the query
-    really names a field that the index does not have, and the same query with every clause on an unknown field
-    removed runs without error (checked by the caller being otherwise silent on known fields: here we only
-    require that an unknown field is present and that the message names one of them)."""
-    from whoosh.reading import TermNotFound
-    if not isinstance(e, (KeyError, TermNotFound)):
-        return False
-    unknown = set()
-    try:
-        for leaf in q.leaves():
-            fn = leaf.field()
-            if fn is not None and fn not in W.schema:
-                unknown.add(fn)
-    except Exception:  # noqa
-        return False
-    msg = str(e)
-    return any(repr(fn) in msg for fn in unknown)
-
 
 def _has_error(q):
     try:
